@@ -124,6 +124,8 @@ class RemInt:
                             src.pop(d, None)
                         done = True
                         self.stale(st, d)
+            elif mn in ('or', 'and') and len(ops) == 2 and ops[1] == d:
+                st['fl'] = ('res', d, 0, False); done = True      # value unchanged, flags of the value
             elif mn in ('cmp', 'test'):
                 done = True
         if mn == 'cmp' and len(ops) == 2 and is64(ops[0]) and IMM.match(ops[1]):
